@@ -25,3 +25,494 @@ Qed.
 Lemma unquote_unescape_orig_IndexError :
   unquote_unescape_with false [28] = Err IndexError.
 Proof. vm_compute. reflexivity. Qed.
+
+(* ------------------------------------------------------------------------------------------- *)
+(* Part 1: exception classes.  With the two repairs in place (guard_fix = ovf_fix = true), every
+   function of the model returns Ok, Err ValueError or Err OutOfFuel.                           *)
+Lemma index0_nonempty c r : index (c :: r) 0 = Ok c.
+Proof.
+  unfold index, zlen. cbn [length]. rewrite Nat2Z.inj_succ.
+  destruct (Z.ltb_spec 0 0); [lia|]. cbn [orb].
+  destruct (Z.leb_spec (Z.succ (Z.of_nat (length r))) 0); [lia|]. reflexivity.
+Qed.
+
+
+Section Classes.
+  Variable legacy : bool.
+  Variable NUM : Type.
+  Variable parse_num parse_float : str -> option NUM.
+  Variable div1000 : NUM -> res NUM.
+
+  Notation unq := (unquote_unescape true).
+  Notation p_labels := (parse_labels legacy true).
+  Notation p_sample := (parse_sample legacy true NUM parse_num parse_float div1000 true).
+  Notation p_text := (text_parse legacy true NUM parse_num parse_float div1000 true).
+
+  Lemma veo_unq t : veo (unq t).
+  Proof. apply only_VE_veo. apply unquote_unescape_fixed_VE. Qed.
+
+  Lemma veo_validate_labelname s : veo (validate_labelname legacy s).
+  Proof.
+    unfold validate_labelname, validate_labelname_legacy, validate_labelname_utf8.
+    destruct legacy; [destruct (label_name_re s)|]; try destruct (reserved_label_re true s); simpl; auto.
+  Qed.
+
+  Lemma veo_next_term c r om : veo (next_term (c :: r) om).
+  Proof.
+    unfold next_term. rewrite index0_nonempty. cbn [bind].
+    assert (K : forall text, veo (
+      let sp0 := next_unquoted_char text [COMMA; RBRACE] 0 in
+      let sp := if (sp0 =? -1)%Z then zlen text else sp0 in
+      let term := slice_to text sp in
+      match term with
+      | [] => if om then Err ValueError else Ok (strip term, strip (slice_from text sp))
+      | _ => Ok (strip term, strip (slice_from text sp))
+      end)).
+    { intro text. cbv zeta. destruct (slice_to text _); [destruct om|]; simpl; auto. }
+    destruct (c =? COMMA).
+    - destruct (slice_from (c :: r) 1) as [|c1 t1]; [simpl; auto|].
+      destruct (c1 =? COMMA); [simpl; auto|]. apply K.
+    - apply K.
+  Qed.
+
+  Lemma veo_parse_one_label term labels : veo (parse_one_label legacy true term labels).
+  Proof.
+    unfold parse_one_label.
+    apply veo_bind.
+    - destruct (_ =? -1)%Z; [exact I|]. apply veo_bind; [apply veo_unq|]. intros [n q] _. exact I.
+    - intros [[label_name quoted_name] term1] _.
+      destruct (negb quoted_name && _); [simpl; auto|].
+      destruct (strip term1) as [|c rest]; [simpl; auto|].
+      destruct (negb (c =? DQ)); [simpl; auto|].
+      apply veo_bind.
+      + destruct rest; [exact I|]. destruct (find_close _ _ _); simpl; auto.
+      + intros i _. destruct (negb _); [simpl; auto|].
+        apply veo_bind; [apply veo_unq|]. intros [label_value b] _.
+        apply veo_bind.
+        * destruct (str_eqb _ _); [exact I|apply veo_validate_labelname].
+        * intros _ _. destruct (d_mem _ _ _); simpl; auto.
+  Qed.
+
+  Lemma veo_parse_labels_fuel fuel : forall sub om labels, veo (parse_labels_fuel legacy true fuel sub om labels).
+  Proof.
+    induction fuel as [|fuel IH]; intros sub om labels; [simpl; auto|].
+    cbn [parse_labels_fuel]. destruct sub as [|c r]; [exact I|].
+    apply veo_bind; [apply veo_next_term|]. intros [term sub'] _.
+    destruct term as [|t0 tr].
+    - destruct om; [simpl; auto|apply IH].
+    - apply veo_bind; [apply veo_parse_one_label|]. intros labels' _. apply IH.
+  Qed.
+
+  Lemma veo_parse_labels s om : veo (p_labels s om).
+  Proof.
+    unfold parse_labels. destruct (strip s) as [|c r]; [exact I|].
+    destruct (om && _); [simpl; auto|]. apply veo_parse_labels_fuel.
+  Qed.
+
+  Lemma veo_parse_value v : veo (parse_value NUM parse_num v).
+  Proof.
+    unfold parse_value. destruct (_ || _); [simpl; auto|]. destruct (parse_num v); simpl; auto.
+  Qed.
+
+  Lemma veo_pvt s : veo (parse_value_and_timestamp NUM parse_num parse_float div1000 true s).
+  Proof.
+    unfold parse_value_and_timestamp.
+    destruct (map strip _) as [|v0 rest].
+    - destruct (parse_float _); simpl; auto.
+    - apply veo_bind; [apply veo_parse_value|]. intros value _.
+      destruct rest as [|r0 rr]; [exact I|].
+      apply veo_bind; [apply veo_parse_value|]. intros t _.
+      destruct (div1000 t); simpl; auto.
+  Qed.
+
+  Lemma veo_parse_sample text : veo (p_sample text).
+  Proof.
+    unfold parse_sample.
+    destruct (_ || _).
+    - destruct (negb _); [simpl; auto|].
+      apply veo_bind; [apply veo_pvt|]. intros [v ts] _. exact I.
+    - apply veo_bind; [apply veo_parse_labels|]. intros labels _.
+      apply veo_bind.
+      + destruct (strip _) as [|n0 nr].
+        * destruct (d_find _ _ _); simpl; auto.
+        * destruct (d_mem _ _ _); simpl; auto.
+      + intros [name' labels'] _.
+        apply veo_bind; [apply veo_pvt|]. intros [v ts] _. exact I.
+  Qed.
+
+  Lemma veo_build_metric name doc typ samples : veo (build_metric legacy NUM name doc typ samples).
+  Proof.
+    unfold build_metric.
+    destruct (if str_eqb typ S_counter then _ else _) as [name1 samples1].
+    apply veo_bind.
+    - unfold validate_metric_name_legacy, validate_metric_name_utf8.
+      destruct legacy; destruct name1 as [|c0 n1]; simpl; auto.
+      destruct (name_start c0 && match_rest false name_rest n1); simpl; auto.
+    - intros _ _. destruct (mem_str _ _); simpl; auto.
+  Qed.
+
+  Lemma veo_flush st : veo (flush legacy NUM st).
+  Proof.
+    unfold flush. destruct (st_name NUM st); [exact I|].
+    apply veo_bind; [apply veo_build_metric|]. intros m _. exact I.
+  Qed.
+
+  Lemma veo_split_quoted_fuel fuel : forall text chs ms x done last,
+    veo (split_quoted_fuel fuel text chs ms x done last).
+  Proof.
+    induction fuel as [|fuel IH]; intros; [simpl; auto|].
+    cbn [split_quoted_fuel]. destruct (_ <? _)%Z; [|exact I].
+    destruct (_ =? -1)%Z; [exact I|]. destruct (_ && _); [exact I|]. apply IH.
+  Qed.
+
+  Lemma veo_step_line st line : veo (step_line legacy true NUM parse_num parse_float div1000 true st line).
+  Proof.
+    unfold step_line. destruct (strip line) as [|c r]; [exact I|].
+    destruct (c =? HASH).
+    - apply veo_bind; [apply veo_split_quoted_fuel|]. intros parts _.
+      destruct parts as [|p0 [|kw rest]]; try exact I.
+      apply veo_bind.
+      + destruct rest as [|p2 rr]; [exact I|].
+        apply veo_bind; [apply veo_unq|]. intros [n q] _.
+        destruct (negb q && _); simpl; auto.
+      + intros [cand q] _.
+        destruct (str_eqb kw S_HELP).
+        * apply veo_bind.
+          -- destruct (negb _); [|exact I].
+             apply veo_bind; [apply veo_flush|]. intros out _. exact I.
+          -- intros [st1 out] _. exact I.
+        * destruct (str_eqb kw S_TYPE); [|exact I].
+          destruct rest as [|r0 [|typ [|x y]]]; try (simpl; auto; fail).
+          apply veo_bind.
+          -- destruct (negb _); [|exact I].
+             apply veo_bind; [apply veo_flush|]. intros out _. exact I.
+          -- intros [st1 out] _. exact I.
+    - apply veo_bind; [apply veo_parse_sample|]. intros sample _.
+      destruct (mem_str _ _); [exact I|].
+      apply veo_bind; [apply veo_flush|]. intros out _.
+      apply veo_bind; [apply veo_build_metric|]. intros m _. exact I.
+  Qed.
+
+  Lemma veo_run_lines lines : forall st acc,
+    veo (run_lines legacy true NUM parse_num parse_float div1000 true st lines acc).
+  Proof.
+    induction lines as [|l r IH]; intros st acc; cbn [run_lines].
+    - apply veo_bind; [apply veo_flush|]. intros out _. exact I.
+    - apply veo_bind; [apply veo_step_line|]. intros [st' out] _. apply IH.
+  Qed.
+
+  Theorem text_parse_classes s : veo (p_text s).
+  Proof. unfold text_parse. apply veo_run_lines. Qed.
+End Classes.
+
+(* ------------------------------------------------------------------------------------------- *)
+(* Part 2: termination.  The fuel given to the two loops is always enough, so OutOfFuel is never
+   returned: split_quoted advances its index at every round; the label loop shortens its input at
+   every round PROVIDED the input holds no unquoted closing brace - which is what _parse_sample
+   guarantees for the text between the first unquoted braces (the "fresh scan" argument).
+   parse_labels called directly on a string starting with a closing brace does loop for ever in
+   the Python source; it is unreachable from the public entry point.                            *)
+From V Require Import proofs.ScanFacts.
+
+Lemma only_VE_bind {A B} (m : res A) (f : A -> res B) :
+  only_VE m -> (forall a, m = Ok a -> only_VE (f a)) -> only_VE (bind m f).
+Proof. destruct m as [a|e]; simpl; intros H1 H2; [apply H2; reflexivity|exact H1]. Qed.
+
+Lemma split_quoted_fuel_ok fuel : forall text chs ms x done last,
+  (0 <= x)%Z -> (Z.max 0 (zlen text - x) + 1 <= Z.of_nat fuel)%Z ->
+  exists l, split_quoted_fuel fuel text chs ms x done last = Ok l.
+Proof.
+  induction fuel as [|fuel IH]; intros text chs ms x done last Hx Hf; [lia|].
+  cbn [split_quoted_fuel]. destruct (Z.ltb_spec x (zlen text)); [|eexists; reflexivity].
+  destruct (Z.eqb_spec (next_unquoted_char text chs x) (-1)); [eexists; reflexivity|].
+  destruct (_ && _); [eexists; reflexivity|].
+  apply IH.
+  - unfold next_unquoted_char in *. destruct (nuq_range chs text 0 x false false) as [H0|H0]; [contradiction|lia].
+  - unfold next_unquoted_char in *. destruct (nuq_range chs text 0 x false false) as [H0|H0]; [contradiction|lia].
+Qed.
+
+Lemma split_quoted_ok text chs ms : exists l, split_quoted text chs ms = Ok l.
+Proof. unfold split_quoted. apply split_quoted_fuel_ok; unfold zlen; lia. Qed.
+
+Section Termination.
+  Variable legacy : bool.
+  Variable NUM : Type.
+  Variable parse_num parse_float : str -> option NUM.
+  Variable div1000 : NUM -> res NUM.
+
+  Notation unq := (unquote_unescape true).
+  Notation CB := [RBRACE].
+
+  Lemma VE_unq t : only_VE (unq t).
+  Proof. apply unquote_unescape_fixed_VE. Qed.
+
+  Lemma VE_validate_labelname s : only_VE (validate_labelname legacy s).
+  Proof.
+    unfold validate_labelname, validate_labelname_legacy, validate_labelname_utf8.
+    destruct legacy; [destruct (label_name_re s)|]; try destruct (reserved_label_re true s); simpl; auto.
+  Qed.
+
+  Lemma VE_parse_one_label term labels : only_VE (parse_one_label legacy true term labels).
+  Proof.
+    unfold parse_one_label.
+    apply only_VE_bind.
+    - destruct (_ =? -1)%Z; [exact I|]. apply only_VE_bind; [apply VE_unq|]. intros [n q] _. exact I.
+    - intros [[label_name quoted_name] term1] _.
+      destruct (negb quoted_name && _); [simpl; auto|].
+      destruct (strip term1) as [|c rest]; [simpl; auto|].
+      destruct (negb (c =? DQ)); [simpl; auto|].
+      apply only_VE_bind.
+      + destruct rest; [exact I|]. destruct (find_close _ _ _); simpl; auto.
+      + intros i _. destruct (negb _); [simpl; auto|].
+        apply only_VE_bind; [apply VE_unq|]. intros [label_value b] _.
+        apply only_VE_bind.
+        * destruct (str_eqb _ _); [exact I|apply VE_validate_labelname].
+        * intros _ _. destruct (d_mem _ _ _); simpl; auto.
+  Qed.
+
+  (* the common tail of _next_term, on a text whose first character is not a comma *)
+  Definition nt_tail (om : bool) (text : str) : res (str * str) :=
+    let sp0 := next_unquoted_char text [COMMA; RBRACE] 0 in
+    let sp := if (sp0 =? -1)%Z then zlen text else sp0 in
+    let term := slice_to text sp in
+    match term with
+    | [] => if om then Err ValueError else Ok (strip term, strip (slice_from text sp))
+    | _ => Ok (strip term, strip (slice_from text sp))
+    end.
+
+  Lemma nt_tail_progress om c r term sub' :
+    c <> COMMA -> clean CB (c :: r) -> nt_tail om (c :: r) = Ok (term, sub') ->
+    (length sub' < length (c :: r))%nat /\ clean CB sub'.
+  Proof.
+    intros Hc Hcl H. unfold nt_tail in H. rewrite next_unquoted_char_rel in H.
+    assert (Hsub : exists sp, sub' = strip (slice_from (c :: r) sp) /\
+              ((sp = zlen (c :: r) /\ nuq0 [COMMA; RBRACE] (c :: r) false false = None) \/
+               (exists k, sp = Z.of_nat k /\ nuq0 [COMMA; RBRACE] (c :: r) false false = Some k))).
+    { destruct (nuq0 [COMMA; RBRACE] (c :: r) false false) as [k|] eqn:E.
+      - exists (Z.of_nat k). replace (Z.of_nat k =? -1)%Z with false in H by lia.
+        split; [|right; exists k; auto].
+        destruct (slice_to (c :: r) (Z.of_nat k)); [destruct om|]; inversion H; reflexivity.
+      - exists (zlen (c :: r)). rewrite Z.eqb_refl in H. split; [|left; auto].
+        destruct (slice_to (c :: r) (zlen (c :: r))); [destruct om|]; inversion H; reflexivity. }
+    destruct Hsub as (sp & -> & [[-> Hn]|(k & -> & Hk)]).
+    - unfold zlen. rewrite slice_from_skipn by lia. rewrite skipn_all. cbn. split; [lia|reflexivity].
+    - destruct (nuq0_Some _ _ _ _ _ Hk) as (a & c' & rest & Hl & Hlen & Hna & Hm & Hst).
+      assert (Hk0 : k <> 0%nat).
+      { intro E; subst k. destruct a; [|discriminate]. cbn [app] in Hl. inversion Hl; subst c' rest.
+        cbn [mem_char orb] in Hm. unfold COMMA, RBRACE in *.
+        destruct (N.eqb_spec c 44); [contradiction|]. destruct (N.eqb_spec c 125) as [->|]; [|discriminate].
+        unfold clean in Hcl. vm_compute in Hcl. discriminate. }
+      assert (Hc' : c' <> DQ /\ c' <> BS).
+      { cbn [mem_char orb] in Hm. unfold COMMA, RBRACE, DQ, BS in *.
+        destruct (N.eqb_spec c' 44) as [->|]; [split; discriminate|].
+        destruct (N.eqb_spec c' 125) as [->|]; [split; discriminate|discriminate]. }
+      destruct Hc' as [Hq Hb].
+      rewrite Hl. rewrite slice_from_skipn by (rewrite app_length; cbn; lia).
+      replace (skipn k (a ++ c' :: rest)) with (c' :: rest)
+        by (rewrite <- Hlen, skipn_app, skipn_all, Nat.sub_diag; reflexivity).
+      split.
+      + pose proof (length_strip (c' :: rest)) as Hls. rewrite app_length. cbn [length] in *. lia.
+      + apply clean_strip. rewrite Hl in Hcl. unfold clean in *. rewrite nuq0_app in Hcl.
+        destruct (nuq0 CB a false false); [discriminate|].
+        destruct (nuq0 CB (c' :: rest) _ _) eqn:E; [discriminate|].
+        cbv zeta in Hst. destruct (N.eqb_spec c' DQ); [contradiction|]. cbn [andb] in Hst.
+        rewrite Hst in E. cbn [nuq0] in E |- *.
+        destruct (N.eqb_spec c' BS); [contradiction|]. destruct (N.eqb_spec c' DQ); [contradiction|].
+        cbn [andb negb] in E |- *. exact E.
+  Qed.
+
+  Lemma next_term_progress c r om term sub' :
+    clean CB (c :: r) -> next_term (c :: r) om = Ok (term, sub') ->
+    (length sub' < length (c :: r))%nat /\ clean CB sub'.
+  Proof.
+    intros Hcl H. unfold next_term in H. rewrite index0_nonempty in H. cbn [bind] in H.
+    fold (nt_tail om) in H.
+    destruct (N.eqb_spec c COMMA) as [->|Hc].
+    - change 1%Z with (Z.of_nat 1) in H. rewrite slice_from_skipn in H by (cbn; lia). cbn [skipn] in H.
+      assert (Hr : clean CB r) by (eapply clean_tail; eauto; discriminate).
+      destruct r as [|c1 r1]; [inversion H; cbn; split; [lia|reflexivity]|].
+      destruct (N.eqb_spec c1 COMMA); [discriminate|].
+      destruct (nt_tail_progress om c1 r1 term sub' n Hr H) as [H1 H2]. split; [cbn [length] in *; lia|exact H2].
+    - apply (nt_tail_progress om c r term sub' Hc Hcl H).
+  Qed.
+
+  Lemma VE_next_term c r om : only_VE (next_term (c :: r) om).
+  Proof.
+    unfold next_term. rewrite index0_nonempty. cbn [bind]. fold (nt_tail om).
+    assert (K : forall text, only_VE (nt_tail om text)).
+    { intro text. unfold nt_tail. cbv zeta. destruct (slice_to text _); [destruct om|]; simpl; auto. }
+    destruct (c =? COMMA); [|apply K].
+    destruct (slice_from (c :: r) 1) as [|c1 t1]; [simpl; auto|].
+    destruct (c1 =? COMMA); [simpl; auto|]. apply K.
+  Qed.
+
+  Lemma VE_parse_labels_fuel fuel : forall sub om labels,
+    clean CB sub -> (length sub < fuel)%nat -> only_VE (parse_labels_fuel legacy true fuel sub om labels).
+  Proof.
+    induction fuel as [|fuel IH]; intros sub om labels Hcl Hf; [lia|].
+    cbn [parse_labels_fuel]. destruct sub as [|c r]; [exact I|].
+    apply only_VE_bind; [apply VE_next_term|]. intros [term sub'] Hnt.
+    destruct (next_term_progress c r om term sub' Hcl Hnt) as [Hlen Hcl'].
+    destruct term as [|t0 tr].
+    - destruct om; [simpl; auto|]. apply IH; [exact Hcl'|lia].
+    - apply only_VE_bind; [apply VE_parse_one_label|]. intros labels' _. apply IH; [exact Hcl'|lia].
+  Qed.
+
+  Lemma VE_parse_labels s om : clean CB s -> only_VE (parse_labels legacy true s om).
+  Proof.
+    intro Hcl. unfold parse_labels. pose proof (clean_strip CB s Hcl) as Hs.
+    destruct (strip s) as [|c r] eqn:E; [exact I|].
+    destruct (om && _); [simpl; auto|]. apply VE_parse_labels_fuel; [exact Hs|lia].
+  Qed.
+
+  (* _parse_sample hands the label loop a brace-free string *)
+  Lemma label_slice_clean text :
+    clean CB (slice text (next_unquoted_char text [LBRACE] 0 + 1)%Z (next_unquoted_char text CB 0)).
+  Proof.
+    rewrite !next_unquoted_char_rel.
+    destruct (nuq0 [LBRACE] text false false) as [ls|] eqn:Els.
+    2:{ (* no opening brace: the slice starts at index 0 *)
+      destruct (nuq0 CB text false false) as [le|] eqn:Ele.
+      - destruct (nuq0_Some _ _ _ _ _ Ele) as (a & c' & rest & Hl & Hlen & Hna & _).
+        change (-1 + 1)%Z with (Z.of_nat 0). rewrite slice_nat by (apply nuq0_lt in Ele; lia).
+        rewrite Nat.sub_0_r. cbn [skipn]. rewrite Hl, <- Hlen, firstn_app, firstn_all, Nat.sub_diag.
+        cbn [firstn]. rewrite app_nil_r. exact Hna.
+      - (* text[0:-1]: a prefix of a brace-free text *)
+        change (-1 + 1)%Z with (Z.of_nat 0).
+        destruct (slice_lo_nat text 0 (-1) ltac:(lia)) as [n ->]. cbn [skipn]. apply clean_firstn. exact Ele. }
+    destruct (nuq0_Some _ _ _ _ _ Els) as (a & c' & rest & Hl & Hlen & Hna & Hm & Hst).
+    assert (Hc' : c' = LBRACE).
+    { cbn [mem_char orb] in Hm. destruct (N.eqb_spec c' LBRACE); [auto|discriminate]. }
+    subst c'. cbv zeta in Hst. cbn [N.eqb LBRACE DQ andb] in Hst.
+    (* state after the opening brace is fresh: (false, false) *)
+    assert (Hfresh : forall chs, nuq0 chs text false false =
+              match nuq0 chs a false false with
+              | Some k => Some k
+              | None => if mem_char LBRACE chs then Some (length a)
+                        else option_map (fun k => (length a + S k)%nat) (nuq0 chs rest false false)
+              end).
+    { intro chs. rewrite Hl, nuq0_app. destruct (nuq0 chs a false false); [reflexivity|].
+      cbn [nuq0]. cbn [N.eqb LBRACE DQ BS andb]. rewrite Hst. cbn [negb andb].
+      destruct (mem_char LBRACE chs); [cbn; f_equal; lia|].
+      change (123 =? 92)%positive with false. cbv iota. destruct (nuq0 chs rest false false); cbn [option_map]; [f_equal; lia|reflexivity]. }
+    pose proof (Hfresh CB) as Hcb. cbn [mem_char orb N.eqb LBRACE RBRACE] in Hcb.
+    assert (Hlt : (ls < length text)%nat) by (apply nuq0_lt in Els; exact Els).
+    destruct (nuq0 CB text false false) as [le|] eqn:Ele.
+    - destruct (nuq0 CB a false false) as [ka|] eqn:Eka.
+      + (* the first closing brace comes before the opening one: empty slice *)
+        inversion Hcb; subst le. assert (ka < length a)%nat by (eapply nuq0_lt; eauto).
+        unfold slice, zlen. rewrite !norm_idx_id by lia.
+        destruct (Z.leb_spec (Z.of_nat ka) (Z.of_nat ls + 1)); [reflexivity|lia].
+      + destruct (nuq0 CB rest false false) as [kr|] eqn:Ekr; [|discriminate].
+        cbn [option_map] in Hcb. inversion Hcb; subst le.
+        destruct (nuq0_Some _ _ _ _ _ Ekr) as (b & c2 & rest2 & Hl2 & Hlen2 & Hnb & _).
+        replace (Z.of_nat ls + 1)%Z with (Z.of_nat (S ls)) by lia.
+        assert (kr < length rest)%nat by (eapply nuq0_lt; eauto).
+        rewrite slice_nat by (rewrite Hl, app_length; cbn [length]; lia).
+        rewrite Hl, <- Hlen.
+        replace (skipn (S (length a)) (a ++ LBRACE :: rest)) with rest
+          by (rewrite skipn_app, skipn_all2 by lia;
+              replace (S (length a) - length a)%nat with 1%nat by lia; reflexivity).
+        replace (length a + S kr - S (length a))%nat with kr by lia.
+        rewrite Hl2, <- Hlen2, firstn_app, firstn_all, Nat.sub_diag. cbn [firstn]. rewrite app_nil_r. exact Hnb.
+    - (* no closing brace at all: text[ls+1:-1], a prefix of the brace-free rest *)
+      destruct (nuq0 CB a false false); [discriminate|].
+      destruct (nuq0 CB rest false false) eqn:Ekr; [discriminate|].
+      replace (Z.of_nat ls + 1)%Z with (Z.of_nat (S ls)) by lia.
+      destruct (slice_lo_nat text (S ls) (-1) ltac:(lia)) as [n ->].
+      rewrite Hl, <- Hlen.
+      replace (skipn (S (length a)) (a ++ LBRACE :: rest)) with rest
+        by (rewrite skipn_app, skipn_all2 by lia;
+            replace (S (length a) - length a)%nat with 1%nat by lia; reflexivity).
+      apply clean_firstn. exact Ekr.
+  Qed.
+
+  Lemma VE_parse_value v : only_VE (parse_value NUM parse_num v).
+  Proof.
+    unfold parse_value. destruct (_ || _); [simpl; auto|]. destruct (parse_num v); simpl; auto.
+  Qed.
+
+  Lemma VE_pvt s : only_VE (parse_value_and_timestamp NUM parse_num parse_float div1000 true s).
+  Proof.
+    unfold parse_value_and_timestamp.
+    destruct (map strip _) as [|v0 rest].
+    - destruct (parse_float _); simpl; auto.
+    - apply only_VE_bind; [apply VE_parse_value|]. intros value _.
+      destruct rest as [|r0 rr]; [exact I|].
+      apply only_VE_bind; [apply VE_parse_value|]. intros t _.
+      destruct (div1000 t); simpl; auto.
+  Qed.
+
+  Lemma VE_parse_sample text : only_VE (parse_sample legacy true NUM parse_num parse_float div1000 true text).
+  Proof.
+    unfold parse_sample.
+    destruct (_ || _).
+    - destruct (negb _); [simpl; auto|].
+      apply only_VE_bind; [apply VE_pvt|]. intros [v ts] _. exact I.
+    - apply only_VE_bind; [apply VE_parse_labels, label_slice_clean|]. intros labels _.
+      apply only_VE_bind.
+      + destruct (strip _) as [|n0 nr].
+        * destruct (d_find _ _ _); simpl; auto.
+        * destruct (d_mem _ _ _); simpl; auto.
+      + intros [name' labels'] _.
+        apply only_VE_bind; [apply VE_pvt|]. intros [v ts] _. exact I.
+  Qed.
+
+  Lemma VE_build_metric name doc typ samples : only_VE (build_metric legacy NUM name doc typ samples).
+  Proof.
+    unfold build_metric.
+    destruct (if str_eqb typ S_counter then _ else _) as [name1 samples1].
+    apply only_VE_bind.
+    - unfold validate_metric_name_legacy, validate_metric_name_utf8.
+      destruct legacy; destruct name1 as [|c0 n1]; simpl; auto.
+      destruct (name_start c0 && match_rest false name_rest n1); simpl; auto.
+    - intros _ _. destruct (mem_str _ _); simpl; auto.
+  Qed.
+
+  Lemma VE_flush st : only_VE (flush legacy NUM st).
+  Proof.
+    unfold flush. destruct (st_name NUM st); [exact I|].
+    apply only_VE_bind; [apply VE_build_metric|]. intros m _. exact I.
+  Qed.
+
+  Lemma VE_step_line st line :
+    only_VE (step_line legacy true NUM parse_num parse_float div1000 true st line).
+  Proof.
+    unfold step_line. destruct (strip line) as [|c r]; [exact I|].
+    destruct (c =? HASH).
+    - destruct (split_quoted_ok (c :: r) WS_ASCII 3) as [parts ->]. cbn [bind].
+      destruct parts as [|p0 [|kw rest]]; try exact I.
+      apply only_VE_bind.
+      + destruct rest as [|p2 rr]; [exact I|].
+        apply only_VE_bind; [apply VE_unq|]. intros [n q] _.
+        destruct (negb q && _); simpl; auto.
+      + intros [cand q] _.
+        destruct (str_eqb kw S_HELP).
+        * apply only_VE_bind.
+          -- destruct (negb _); [|exact I].
+             apply only_VE_bind; [apply VE_flush|]. intros out _. exact I.
+          -- intros [st1 out] _. exact I.
+        * destruct (str_eqb kw S_TYPE); [|exact I].
+          destruct rest as [|r0 [|typ [|x y]]]; try (simpl; auto; fail).
+          apply only_VE_bind.
+          -- destruct (negb _); [|exact I].
+             apply only_VE_bind; [apply VE_flush|]. intros out _. exact I.
+          -- intros [st1 out] _. exact I.
+    - apply only_VE_bind; [apply VE_parse_sample|]. intros sample _.
+      destruct (mem_str _ _); [exact I|].
+      apply only_VE_bind; [apply VE_flush|]. intros out _.
+      apply only_VE_bind; [apply VE_build_metric|]. intros m _. exact I.
+  Qed.
+
+  Lemma VE_run_lines lines : forall st acc,
+    only_VE (run_lines legacy true NUM parse_num parse_float div1000 true st lines acc).
+  Proof.
+    induction lines as [|l r IH]; intros st acc; cbn [run_lines].
+    - apply only_VE_bind; [apply VE_flush|]. intros out _. exact I.
+    - apply only_VE_bind; [apply VE_step_line|]. intros [st' out] _. apply IH.
+  Qed.
+
+  Theorem text_parse_total s :
+    only_VE (text_parse legacy true NUM parse_num parse_float div1000 true s).
+  Proof. unfold text_parse. apply VE_run_lines. Qed.
+End Termination.
